@@ -123,6 +123,7 @@ type Run struct {
 	smtLog    string
 	initLog   func(string)
 	seed      int
+	branchTimeoutMs int
 }
 
 func (ex *Exec) noteFunc(fn *ssa.Function) {
@@ -185,6 +186,8 @@ func (ex *Exec) branchNoSite(c *Term) bool {
 		}
 		return d.Val == 1
 	}
+	ex.solver.QueryTimeout = ex.run.branchTimeoutMs
+	defer func() { ex.solver.QueryTimeout = 0 }()
 	rt := ex.solver.CheckWith(c)
 	if rt == Unsat {
 		ex.trace = append(ex.trace, dec{Val: 0, N: 2, Forced: true})
@@ -429,7 +432,7 @@ func (ex *Exec) tolerantly(fr *Frame, v ssa.Value, f func()) {
 
 func NewRun(prog *ssa.Program, entry *ssa.Function) *Run {
 	r := &Run{prog: prog, entry: entry, funcs: map[string]bool{}, intr: map[string]bool{}, assump: map[string]bool{},
-		maxPaths: 20000, unwind: 12, maxSteps: 5_000_000, timeoutMs: 20000, solverNm: "z3"}
+		maxPaths: 20000, unwind: 12, branchTimeoutMs: 4000, maxSteps: 5_000_000, timeoutMs: 20000, solverNm: "z3"}
 	r.cond = sync.NewCond(&r.mu)
 	return r
 }
